@@ -94,10 +94,12 @@ class C05(Check):
                 v.violate("C05", "exception", [ev["exc"].split(":")[0]], ev["exc"], ev["seq"], "A")
                 continue
             if not pinned:
-                # the unpinned solve
-                if ev.get("outcome") == "false" and not ev.get("faults") and ref.get("n_valid", 0) > 0:
+                # the unpinned solve (the reference is asked again on the spec as it is now:
+                # a minimised replay must stay a true statement about its own spec)
+                if ev.get("outcome") == "false" and not ev.get("faults") and \
+                        enum.has_valid(spec, keyed_rng(plan["run_seed"], "sample")) is True:
                     culprits = self.culprits(plan, spec, None)
-                    v.violate("C05", "false_unsat", culprits, {"n_valid": ref["n_valid"], "mode": ref["mode"]}, ev["seq"], "A")
+                    v.violate("C05", "false_unsat", culprits, {"mode": ref.get("mode")}, ev["seq"], "A")
                 if ev.get("outcome") in ("solution", "false") and not ev.get("faults"):
                     v.probe("unpinned_solve_judged")
                 continue
@@ -108,8 +110,12 @@ class C05(Check):
             elif st.get("why") == "unknown":
                 v.probe("pin_inconclusive")
             else:
-                step = plan["script"][ev["seq"]]
-                pins = step["env"][0]["steer"]["pins"]
+                pins = st.get("pins") or plan["script"][ev["seq"]]["env"][0]["steer"]["pins"]
+                # re-validate the candidate against the spec as it is now
+                rebuilt = enum.cand_from_pins(spec, pins)
+                if rebuilt is None or enum.classify(spec, rebuilt[0])[0] != sem.V:
+                    v.probe("pin_not_valid_for_this_spec")
+                    continue
                 culprits = self.culprits(plan, spec, pins)
                 v.violate("C05", "lost_schedule", culprits, {"pins": pins}, ev["seq"], "A")
         if n_pinned:
